@@ -134,12 +134,15 @@ structure St (A : Type) where
   a : A
   b : A
 
+/-- a state-changing step: on success register `a` is replaced and the new array is dumped -/
+def Kind.setA {A : Type} (K : Kind A) (s : St A) (o : Out A) : St A × List String :=
+  match o with
+  | .ok a' => ({ s with a := a' }, "ok" :: (K.dump a').toks)
+  | o => (s, outToks (fun _ => []) o)
+
 /-- one step: new state and the observation tokens -/
 def Kind.step {A : Type} (K : Kind A) (s : St A) (op : Op) : St A × List String :=
-  let setA (o : Out A) : St A × List String :=
-    match o with
-    | .ok a' => ({ s with a := a' }, "ok" :: (K.dump a').toks)
-    | o => (s, outToks (fun _ => []) o)
+  let setA := K.setA s
   match op with
   | .zeros => setA K.zeros
   | .dflt => setA K.dflt
